@@ -19,6 +19,12 @@ import Dawgs.Model.C13Lts
                                         (one goroutine adds the pairs lo+2k, lo+2k+1 to wrapper o, one Add call per pair, while another
                                          keeps merging x.Or(o); torn = merges after which x held exactly one element of a pair)
   conc <x> t0-ops / t1-ops / …       -> ok <card> <rle> cadd=<n>   (one goroutine per op list; order-independent mixes)
+  comm <v> or:<a>,<b> … and:<c>,… …   -> true|false   (commutative.go: CommutativeDuplexes{or…, and…}.Contains(v))
+  eachcall <x> <k> remove|cadd|add|contains <y>  -> ok <card x> <rle x> | <card y> <rle y>   (delegate of x.Each calls y.M(v); y ≠ x)
+  toids <x>                          -> <card> <rle>          (graph.DuplexToGraphIDs, quiescent)
+  toidsrace <x> <lo> <n>             -> ok bad=<k> <card> <rle>   (conversions while a writer slides a window over wrapper x)
+  caddrace <x> <lo> <n> <g>          -> ok trues=<k> <card> <rle>  (g goroutines CheckedAdd the same n values)
+  kindor <x> <y>                     -> <card> <rle> | <obs x> | <obs y>   (graph.KindBitmaps.AddDuplexToKind / ThreadSafeKindBitmap.Or)
 Any call that can never return (blocked in a mutex) answers `deadlock`.
 Sets are printed run-length encoded: `[0-4999,65536,70000-70010]`. -/
 namespace Driver.C13
@@ -112,6 +118,16 @@ def concRun (lookup : String → Option Prov) (self : String) (w : Width) (fixed
   toks.foldlM (fun (acc : S × Nat) tok =>
     if tok == "/" then some acc else (concTok lookup self w fixed snap acc.1 tok).map (fun r => (r.1, acc.2 + r.2))) (s, 0)
 
+/-- `or:a,b` / `and:c` groups of a `comm` line, resolved to sets -/
+def commGroups (lookup : String → Option S) (toks : List String) : Option (List (List S) × List (List S)) :=
+  toks.foldlM (fun (acc : List (List S) × List (List S)) tok =>
+    match tok.splitOn ":" with
+    | [k, names] =>
+      match (names.splitOn ",").mapM lookup with
+      | some sets => if k == "or" then some (acc.1 ++ [sets], acc.2) else if k == "and" then some (acc.1, acc.2 ++ [sets]) else none
+      | none => none
+    | _ => none) ([], [])
+
 /-- outside the exactly characterised domain (run containers): iterate-while-remove over a receiver, or the native
 in-place Xor, when a chunk has ever been completely full -/
 def unmodelled (fixed snap : Bool) (p : Prov) (op : BinOp) (o : Operand) (operandEverFull : Bool) : Bool :=
@@ -197,6 +213,42 @@ def step (st : St) (ts : List String) : St × String :=
       | some (s', n) => (st.put x (refresh { p with set := s' }), s!"ok {obs s'} cadd={n}")
       | none => (st, "bad-op")
     | none => (st, "bad-op")
+  | ["eachcall", x, k, m, y] =>
+    let meth : Option NestedM := match m with
+      | "remove" => some .remove | "cadd" => some .cadd | "add" => some .add | "contains" => some .contains | _ => none
+    match st.get x, st.get y, k.toNat?, meth with
+    | some p, some q, some k, some meth =>
+      if x == y || p.width != q.width then (st, "bad-op") else
+      match eachCall p q k meth with
+      | some q' => (st.put y (refresh q'), "ok " ++ obs p.set ++ " | " ++ obs q'.set)
+      | none => (st, "deadlock")
+    | _, _, _, _ => (st, "bad-op")
+  | ["toids", x] => match st.get x with
+    | some p => match p.guard (fun s => obs (toGraphIDs s)) with
+      | some o => (st, o)
+      | none => (st, "deadlock")
+    | none => (st, "bad-op")
+  | ["toidsrace", x, lo, n] => match st.get x, lo.toNat?, n.toNat? with
+    | some p, some lo, some n =>
+      if !p.wrapped || p.locked || lo == 0 || lo + n ≥ limit p.width then (st, "bad-op") else
+      let s' := slideWindow p.set lo n
+      (st.put x (refresh { p with set := s' }), "ok bad=0 " ++ obs s')
+    | _, _, _ => (st, "bad-op")
+  | ["caddrace", x, lo, n, g] => match st.get x, lo.toNat?, n.toNat?, g.toNat? with
+    | some p, some lo, some n, some g =>
+      if !p.wrapped || p.locked || g < 1 || g > 64 || lo + n ≥ limit p.width then (st, "bad-op") else
+      let r := rangeList lo 1 n
+      let s' := union p.set r
+      (st.put x (refresh { p with set := s' }), s!"ok trues={(diff r p.set).length} " ++ obs s')
+    | _, _, _, _ => (st, "bad-op")
+  | ["kindor", x, y] => match st.get x, st.get y with
+    | some p, some q =>
+      if p.width != .w64 || q.width != .w64 || (p.wrapped && p.locked) || (q.wrapped && q.locked) then (st, "bad-op") else
+      (st, obs (union p.set q.set) ++ " | " ++ obs p.set ++ " | " ++ obs q.set)
+    | _, _ => (st, "bad-op")
+  | "comm" :: v :: toks => match v.toNat?, commGroups (fun n => (st.get n).bind (fun p => if p.wrapped && p.locked then none else some p.set)) toks with
+    | some v, some (ors, ands) => (st, toString (commDuplexesContains ors ands v))
+    | _, _ => (st, "bad-op")
   | ["nd", o, x] => match parseOp o, st.get x with
     | some op, some p =>
       match p.binop st.fixed st.snap op .nonDuplex with
